@@ -254,6 +254,8 @@ def run(ctx):
             ctx.ob("T-SHADOW", "%s chain %s" % (name, chain), not bad, "shadowed: %s" % bad)
 
     tables.rule_T_IDENT(ctx, T)
+    tables.rule_T_JUXTAPOSE(ctx, T, models=("enum",), only_written=tables.emitted_copula_fields(ctx))
+    tables.rule_T_BUDGET_IDENT(ctx, T, models=("enum",))
     # ---- clause 3: ordered-alternative conflict --------------------------------------
     x_conflict(ctx, T)
 
